@@ -43,6 +43,11 @@ public:
 
 	boost::signals2::signal<void(const Timer * const&)> OnTimerExpired;
 
+#ifdef ICINGA2_VERIF
+	/* Verification hook H2: fire all started timers due at `now` on the caller's thread, in order. */
+	static int VerifFireDue(double now);
+#endif /* ICINGA2_VERIF */
+
 private:
 	double m_Interval{0}; /**< The interval of the timer. */
 	double m_Next{0}; /**< When the next event should happen. */
